@@ -328,7 +328,8 @@ class ProgBase(HookMixin, ContextMixin, Process):
         if kind == 'out':
             before = copy.deepcopy(self.outputs) if self.PROGRAM.get('snapshot_outputs') else None
             try:
-                self.out(item[1], dec(item[2]))
+                sep = (self.PROGRAM.get('spec') or {}).get('sep')
+                self.out(item[1].replace('.', sep) if sep else item[1], dec(item[2]))
                 self._t('out', idx, port=item[1], value=item[2], ok=True, outputs=copy.deepcopy(self.outputs) if before is not None else None)
             except Exception as exc:  # noqa: BLE001 - recorded, the oracle decides
                 if isinstance(exc, InjectedFault):
@@ -527,6 +528,10 @@ def make_class(program, base=None):
     steps = program['steps']
     assert 1 <= len(steps) <= MAX_STEPS
     namespace = {'PROGRAM': program, '__module__': gen_classes.__name__}
+    if (program.get('spec') or {}).get('sep'):
+        from .models import ports as port_model
+
+        namespace['_spec_class'] = port_model.spec_class_for(program['spec']['sep'])
     for idx, step in enumerate(steps):
         namespace[step_name(idx)] = _make_step(idx, bool(step.get('async')))
     cls = type(name, (base or (CodecProg if program.get('codec') else ProgBase),), namespace)
